@@ -190,10 +190,22 @@ int main(int argc, char** argv) {
         while (std::fread(&tc, sizeof(tc), 1, genf) == 1) { if (idx % gparts == gpart) words.push_back((unsigned)idx); ++idx; }
     }
     std::vector<int> pre(NREG), post(NREG);
+    Machine& m_long = m;
+    long fresh_machines = 0;
     for (unsigned w : words) {
         for (unsigned rep = 0; rep < k; ++rep) {
             TestCase tc;
             bool gen = genf != nullptr;
+            // the result of an instruction is a function of the machine state and nothing else: one record in twelve runs on a
+            // machine constructed for it (an interpreter that has never executed anything), the others on the long-lived one
+            // (whose interpreter has executed every earlier record) -- memo tables and lazily built state show up as a difference
+            std::unique_ptr<Machine> freshm;
+            if (!gen && rng.chance(1, 12)) {
+                freshm = std::make_unique<Machine>();
+                freshm->membuf = m_long.membuf;
+                ++fresh_machines;
+            }
+            Machine& m = freshm ? *freshm : m_long;
             if (gen) {
                 std::fseek(genf, (long)w * (long)sizeof(TestCase), SEEK_SET);
                 if (std::fread(&tc, sizeof(tc), 1, genf) != 1) break;
@@ -311,8 +323,10 @@ int main(int argc, char** argv) {
             // restore any cell the instruction overwrote at pc / pc+1 to the pattern as well
             for (u32 q : {fa, fa + 1}) { if (q >= 0x40000) continue; u16 v = hash16(q, memseed); m.membuf[2 * q] = v & 0xFF; m.membuf[2 * q + 1] = v >> 8; }
             m.mmio_store.fill(0);
+            verif_mem_observer = nullptr;      // the machine of this record may go away
         }
     }
+    (void)fresh_machines;
     o.close();
     return 0;
 }
